@@ -344,3 +344,87 @@ mut("c06-bad-wrapper", ["C06"], [(Q, '''		if err := blockchain.ValidateWitnessCo
 
 // sendTransaction sends a transaction to all peers. It returns an error if any
 // peer rejects the transaction.''')], ["C06.G1"])
+
+# ---- C16 (cache module) ----
+LRU = "cache/lru/lru.go"
+mut("c16-put-leak-on-size-error", ["C16"], [(LRU, '''		if err != nil {
+			c.mtx.Unlock()
+
+			return false, fmt.Errorf("couldn't determine size of "+
+				"existing cache value %v", err)''', '''		if err != nil {
+			return false, fmt.Errorf("couldn't determine size of "+
+				"existing cache value %v", err)''')], ["C16.P1"])
+mut("c16-len-no-lock", ["C16"], [(LRU, '''func (c *Cache[K, V]) Len() int {
+	c.mtx.RLock()
+	defer c.mtx.RUnlock()
+''', '''func (c *Cache[K, V]) Len() int {
+''')], ["C16.L1"])
+mut("c16-size-before-evict", ["C16"], [(LRU, '''	evicted, err := c.evict(vs)
+	if err != nil {
+		c.mtx.Unlock()
+
+		return false, err
+	}
+
+	// We have made enough space in the cache, so just insert it.
+	el = c.ll.PushFront(entry[K, V]{key: key, value: value})
+	c.size += vs
+''', '''	c.size += vs
+	evicted, err := c.evict(vs)
+	if err != nil {
+		c.mtx.Unlock()
+
+		return false, err
+	}
+
+	// We have made enough space in the cache, so just insert it.
+	el = c.ll.PushFront(entry[K, V]{key: key, value: value})
+''')], ["C16.G1"])
+mut("c16-get-lookup-outside", ["C16"], [(LRU, '''	c.mtx.Lock()
+	defer c.mtx.Unlock()
+
+	el, ok := c.cache.Load(key)
+	if !ok {
+		// Element not found in the cache.
+		return defaultVal, cache.ErrElementNotFound
+	}
+''', '''	el, ok := c.cache.Load(key)
+	if !ok {
+		// Element not found in the cache.
+		return defaultVal, cache.ErrElementNotFound
+	}
+
+	c.mtx.Lock()
+	defer c.mtx.Unlock()
+''')], ["C16.L2"])
+mut("c16-evict-wrong-size", ["C16"], [(LRU, "			c.size -= es\n", "			_ = es\n			c.size -= needed\n")], ["C16.G1"])
+mut("c16-size-rlock-write", ["C16"], [(LRU, '''	c.mtx.Lock()
+	defer c.mtx.Unlock()
+
+	// Noop if the element doesn't exist.''', '''	c.mtx.RLock()
+	defer c.mtx.RUnlock()
+
+	// Noop if the element doesn't exist.''')], ["C16.L1"])
+mut("c16-quiet-defer-unlock", ["C16"], [(LRU, '''	c.mtx.Lock()
+
+	// Load the element.
+	el, ok := c.cache.Load(key)''', '''	c.mtx.Lock()
+	defer c.mtx.Unlock()
+
+	// Load the element.
+	el, ok := c.cache.Load(key)'''), (LRU, '''		if err != nil {
+			c.mtx.Unlock()
+
+			return false, fmt.Errorf("couldn't determine size of "+''', '''		if err != nil {
+			return false, fmt.Errorf("couldn't determine size of "+'''), (LRU, '''	if err != nil {
+		c.mtx.Unlock()
+
+		return false, err
+	}''', '''	if err != nil {
+		return false, err
+	}'''), (LRU, '''	c.cache.Store(key, el)
+
+	// Release the lock.
+	c.mtx.Unlock()
+''', '''	c.cache.Store(key, el)
+''')], [])
